@@ -142,7 +142,8 @@ _NS = dict(globals())
 
 
 def type_hints(cls) -> Dict[str, typing.Any]:
-    return cls._type_hints()
+    import sys
+    return typing.get_type_hints(cls, vars(sys.modules[cls.__module__]))
 
 
 _older_cache: Dict[typing.Tuple[str, typing.Tuple[str, ...]], type] = {}
@@ -156,12 +157,12 @@ def older_version(cls, drop: typing.Iterable[str]) -> type:
     got = _older_cache.get(key)
     if got is not None:
         return got
-    hints = cls._type_hints()
+    hints = type_hints(cls)
     fields = []
     for f in dataclasses.fields(cls):
         if f.name in drop_t:
             continue
-        meta = betterproto.FieldMetadata.get(f)
+        meta = f.metadata["betterproto"]
         fields.append((f.name, hints[f.name],
                        betterproto.dataclass_field(meta.number, meta.proto_type, map_types=meta.map_types,
                                                    group=meta.group, wraps=meta.wraps,
